@@ -11,7 +11,7 @@ PROGRAMS = ["forms"]
 RUNS = {"quick": 3000, "thorough": 150000}
 
 FNS = ["plain", "forloop", "fortuple", "nestloop", "whileloop", "tryexc", "bareexc",
-       "withcm", "retnone", "gen", "genloop", "genretry", "callsother", "tup_tuple", "K.meth", "deco", "clo"]
+       "forstar", "withcm", "withret", "retnone", "gen", "genloop", "genretry", "callsother", "tup_tuple", "K.meth", "deco", "clo"]
 GEN_FNS = ("gen", "genloop", "genretry")
 
 
